@@ -53,7 +53,7 @@ CHECKS = {
              "measurement update is turn-invariant and invariant under any permutation of the stacked measurement (matrix algebra). Tied to the code "
              "by exact-rational differential runs of the real helpers (seams, 1e6-turn offsets) and metamorphic runs of the real UKF on multi-step, "
              "mixed radar/optical histories."
-             " The circular mean is also driven with the weights an unscented filter really uses (centre weight down to -2e10 for alpha = 1e-5), sigma angles wrapped one by one.",
+             " The circular mean is also driven with the weights an unscented filter really uses (centre weight down to -2e10 for alpha = 1e-5), sigma angles wrapped one by one. wrapAngle2Pi, wrapAngleNegPiPi and fpe_equals are translated from /repo on every run (RV/Generated/Maths.lean) and proved equal to the model at the code's own constants (RV/Bridge/Maths.lean).",
         note=BASE_TB + "sin/cos/arctan2 inside angularMean are library calls (metamorphic checks on the real function only). Float rounding at a wrap "
              "boundary may select the other representative: counted as boundary skip.",
         technique="Lean 4 proof (floor/mod algebra, matrix algebra) + exact differential correspondence + metamorphic runs of the real UKF",
@@ -96,7 +96,7 @@ CHECKS = {
              "float operation of the three routines to be exact except the quotient S/86400 and the sum J+frac (errors 2^-54 and 2^-32 day), the year guess to be the year or the "
              "next (corrected by the day-of-year test), and the month loop by exhaustion; plus machine-checked witnesses of the repaired and unrepaired second rules. The property "
              "itself is evaluated on the real code for every case (round trip, strict monotonicity, offset error, floor(D/step) steps, epochs)."
-             " Decimal hours go through the real runResonaate, and consecutive run calls are made on a real truth-only scenario whose stored epochs are read back.",
+             " Decimal hours go through the real runResonaate, and consecutive run calls are made on a real truth-only scenario whose stored epochs are read back. The stardate.py functions themselves (getJulianDate with its guards, getCalendarDate, days2mdh with its month loop, the JulianDate/ScenarioTime arithmetic, convertToScenarioTime, convertToJulianDate) are TRANSLATED from /repo to Lean on every run (harness/py2lean.py -> RV/Generated/Stardate.lean) and RV/Bridge/Time.lean proves each translated definition equal to the model the theorems are about, so an edit of those functions breaks a proof obligation directly.",
         note=BASE_TB + "IEEE-754 binary64 round-to-nearest-even for + - * / and exact floor on the host (checked bit for bit on every case); CPython datetime arithmetic "
              "(the labelling of the civil time line by `datetime + timedelta`, an hypothesis of timed_run_steps, tied by the bit-exact comparison of getTargetJulianDate); "
              "theorems are for whole seconds (microsecond = 0), instants with microseconds are covered by the bit-exact correspondence only; "
@@ -114,7 +114,7 @@ CHECKS = {
              "and that coincident impulses lose one. Tied to the code by bit-exact comparison of the windows the real stepForward computes, delivery "
              "runs against a real in-memory database (instance ids 0, 1, 2: id 0 is legal), an in-process pipeline of the real query/handleEvent/prune/TwoBody.propagate code, "
              "and impulses driven through a real Scenario (two targets, several impulses in different steps) against Kepler arcs joined by the impulses."
-             " Two manoeuvre events of one target inside one step, an impulse right after an expired finite burn, and an impulse on a target that joins in the same step are run through real scenarios, each against the same scenario without that impulse.",
+             " Two manoeuvre events of one target inside one step, an impulse right after an expired finite burn, and an impulse on a target that joins in the same step are run through real scenarios, each against the same scenario without that impulse. The scenario-time/Julian-date conversions used by the windows are translated from /repo on every run and proved equal to the model (RV/Bridge/Time.lean).",
         note=BASE_TB + "scipy's event location is modelled by its documented rule and exercised on every impulse case; strict monotonicity of "
              "datetimeToJulianDate is a hypothesis here (C05) and checked bit-exactly on every generated window; events at/before the start are outside the property.",
         technique="Lean 4 proof (tiling over a monotone map, induction over steps) + bit-exact window correspondence + differential delivery/impulse pipeline on the real code",
@@ -219,7 +219,7 @@ CHECKS = {
              "constraint (vector geometry for line of sight, atan2 angles for both field-of-view shapes across the north seam, masks incl. wrapping ones, range limits, slew budget, "
              "limb cone), plus the reported measurement against plain trigonometry on the slant-range vector (noise-free equality, 6.5 sigma with noise)."
              " A real scenario with a slow mount and geostationary targets further apart than one step's slew budget is run as well: reachability is judged on the history of reported observations alone; optical cases at the edge of the Earth's shadow hold equal-size serendipitous targets on both sides of it."
-             " A sensor with a correlated stated noise is sampled 1500 times and the draws whitened with the stated covariance.",
+             " A sensor with a correlated stated noise is sampled 1500 times and the draws whitened with the stated covariance. Sensor.isVisible and Radar.isVisible are TRANSLATED from /repo to Lean on every run (RV/Generated/Sensors.lean) and RV/Bridge/Sensors.lean proves that they are the cascade over the named list of checks in the code's order, and carries the two main theorems to the translated code; reordering, dropping or altering a test breaks that proof.",
         note=BASE_TB + "photometric constraints (solar flux, visual magnitude, galactic exclusion, lighting) and the radar range equation are evaluated with the code's own helpers: "
              "their place in the cascade is checked, their physics is not re-derived; cases with a deciding constraint within 1e-9 of its boundary are skipped and counted.",
         technique="Lean 4 proof over an executable cascade model + differential correspondence against an independent geometric evaluation",
@@ -235,7 +235,7 @@ CHECKS = {
              "vectors. Tied to the code by exact-rational evaluation of every modelled function on the real code's own inputs (coe2eci, flags/branch, singularityCheck, eci2coe angle "
              "selection, sma, eccentricity vector, angular momentum, equinoctial basis, p/q, eqe2eci) and by round trips of the real conversions, Newton solvers and the ECI/COE/EQE "
              "configuration descriptions over orbits straddling every threshold."
-             " Every configuration is asked for its state twice, the first answer modified in place in between.",
+             " Every configuration is asked for its state twice, the first answer modified in place in between. wrapAngle2Pi / wrapAngleNegPiPi are translated from /repo on every run and proved equal to the angle model (RV/Bridge/Maths.lean).",
         note=BASE_TB + "arccos/arctan2/sqrt are oracles in the theorems; convergence of the Newton solvers is exercised on the real code only; orbits inside the circular/equatorial "
              "limits are reproduced to 4x the limit, others to 2e-7 relative (arccos resolution near 0/pi). One open known finding: wrapAngle2Pi returns 2*pi for tiny negative input.",
         technique="Lean 4 proof of the element/state identities + exact-rational differential correspondence + real-code round trips",
@@ -300,7 +300,7 @@ CHECKS = {
              "records the unrepaired one-second-early epoch. Tied to the code by a bit-exact comparison of Terrestrial.datetime_start with the time model and by running the "
              "real dynamicsFactory/Terrestrial.propagate path for sites anywhere on Earth, odd-second starts, runs across UTC midnights, the 2016 leap second and year ends, and "
              "facilities that join after the clock advanced, checking position (< 1 m), Earth-fixed velocity and inertial speed at every step."
-             " Half of the sites have a second facility 2-40 m away built just before them in the same process.",
+             " Half of the sites have a second facility 2-40 m away built just before them in the same process. The Julian-date and calendar functions are translated from /repo on every run and proved equal to the model (RV/Bridge/Time.lean).",
         note=BASE_TB + "orthogonality of an instant's reduction matrices is a hypothesis of the theorems; the universally quantified Julian-date round trip is C05's (partial there).",
         technique="Lean 4 corollaries of the frame and time theorems + real-code evaluation of the property at every step",
         ref="5/C11",
